@@ -8,8 +8,9 @@ keyed by the protected construct, so a deleted guard is a violated instance (exi
  G1  every element access of the PBF string table member is `.at()`; std::out_of_range cannot leave
      PBFPrimitiveBlockDecoder::operator() (it is mapped to pbf_error)
  G2  every insertion into the string table passes `size > max_osm_string_length -> reject` first
- G3  every append of a caller-supplied string in a builder method passes a length bound first (bound <= what the size
-     field written next to it can hold)
+ G3  every copy of a caller-supplied string into the buffer by a builder method (append*, raw memcpy as in set_user) passes a
+     throwing length bound first (bound <= what the size field written next to it can hold; asserts do not count); every
+     narrowing of such a length to the 16-bit string_size_type is preceded by that test
  G4  blob acceptance: raw data size, raw_size range, BlobHeader size on both input paths, datasize != 0, blob size before
      resize/append
  G5  o5m: derived section ends are compared with the dataset end before use; ReferenceTable::get / add bounds; dataset
@@ -320,7 +321,74 @@ def builder_append_sites(fb):
     return out
 
 
+_COPIES = ('memcpy', 'std::memcpy', 'memmove', 'std::memmove', 'std::copy_n', 'std::copy', 'strncpy', 'std::strncpy')
+_NARROW16 = ('unsigned short', 'osmium::string_size_type')
+
+
+def builder_raw_copy_sites(fb):
+    """[(fn, copy call, [size-field stores], param decl ids)] -- raw copies (memcpy & co.) of caller-supplied bytes in methods of
+    Builder-derived classes whose byte count comes only from raw string / length parameters, together with the calls that
+    store `length + k` into a size field next to them (set_user_size(length + 1))."""
+    out = []
+    derived = {r.q for r in fb.derived_from(BUILDER)}
+    seen = set()
+    for fn in fb.functions:
+        if fn.cls not in derived or not fn.has_cfg or fn.is_lambda or (fn.q, fn.pat) in seen:
+            continue
+        seen.add((fn.q, fn.pat))
+        pd = {p['d']: p for p in fn.params}
+        for c in fn.all_nodes():
+            if c.get('k') != 'call' or (c.get('q') or c.get('name')) not in _COPIES:
+                continue
+            args = [a for a in c.get('args', []) or [] if a is not None]
+            if len(args) < 3:
+                continue
+            # byte count = the argument that is not a pointer
+            cnt = [a for a in args if not _is_ptr_t((fn.sn(a) or {}).get('t'))]
+            src = [a for a in args if _is_ptr_t((fn.sn(a) or {}).get('t')) and any(r[0] == 'var' and r[1] in pd and _is_raw_param(pd[r[1]]) for r in deep_roots(fn, a))]
+            if len(cnt) != 1 or not src:
+                continue
+            rs = deep_roots(fn, cnt[0])
+            ps = [r[1] for r in rs if r[0] == 'var' and r[1] in pd and _is_raw_param(pd[r[1]])]
+            if not ps or len(ps) != len(rs):
+                continue
+            subj = {('var', d) for d in ps}
+            stores = []
+            for n in fn.all_nodes():
+                if n.get('k') == 'call' and 'q' in n and n['id'] != c['id'] and _method_name(n['q']).startswith('set_') and _method_name(n['q']).endswith('_size'):
+                    if any(a is not None and deep_roots(fn, a) and deep_roots(fn, a) <= subj for a in n.get('args', [])):
+                        stores.append(n)
+            out.append((fn, c, stores, ps))
+    return out
+
+
+def builder_narrowing_sites(fb):
+    """[(fn, cast node, param decl ids)] -- explicit casts of a caller-supplied length (wider than 16 bit) to the 16-bit
+    string_size_type in methods of Builder-derived classes."""
+    out = []
+    derived = {r.q for r in fb.derived_from(BUILDER)}
+    seen = set()
+    for fn in fb.functions:
+        if fn.cls not in derived or not fn.has_cfg or fn.is_lambda or (fn.q, fn.pat) in seen:
+            continue
+        seen.add((fn.q, fn.pat))
+        pd = {p['d']: p for p in fn.params}
+        for n in fn.all_nodes():
+            if n.get('k') != 'cast' or n.get('toC') not in _NARROW16 or fn.const_value(n['id']) is not None:
+                continue
+            sub = fn.sn(n['sub'])
+            if sub is None or (sub.get('t') or '').replace('const ', '') in _NARROW16 + ('unsigned char', 'char', 'bool'):
+                continue
+            rs = deep_roots(fn, n['sub'])
+            ps = [r[1] for r in rs if r[0] == 'var' and r[1] in pd and _is_raw_param(pd[r[1]])]
+            if not ps or len(ps) != len(rs):
+                continue
+            out.append((fn, n, ps))
+    return out
+
+
 def g3_builder_lengths(fb, R):
+    rule = 'G3-builder-string-length-checked'
     for (fn, c, ps) in builder_append_sites(fb):
         idx = sorted(i for i, p in enumerate(fn.params) if p['d'] in ps)
         key = '%s%s#append:arg%s' % (fn.q, sig(fn), '+'.join(str(i) for i in idx))
@@ -328,12 +396,40 @@ def g3_builder_lengths(fb, R):
         # what the stored size field can hold: a narrowing cast of the subject to 16 bit anywhere in the function => 65534
         limit = U32 - 1
         for n in fn.all_nodes():
-            if n.get('k') == 'cast' and n.get('toC') in ('unsigned short', 'osmium::string_size_type') and deep_roots(fn, n['id']) & subj:
+            if n.get('k') == 'cast' and n.get('toC') in _NARROW16 and deep_roots(fn, n['id']) & subj:
                 limit = U16 - 1
         w = guarded_ip(fb, fn, ['entry'], [c['id']], subj, UB(_const_le(limit)))
-        R.check(w is None, 'G3-builder-string-length-checked', key, fn.loc(c['id']),
+        R.check(w is None, rule, key, fn.loc(c['id']),
                 '%s appends a caller-supplied string without first passing a length test against a bound <= %d on that string '
                 '(over-long input must throw std::length_error, not overflow the size field): %s' % (fn.q, limit, _ipd(w)))
+    # raw copies next to a size field (set_user family): memcpy of `length` bytes and set_user_size(length + 1)
+    for (fn, c, stores, ps) in builder_raw_copy_sites(fb):
+        idx = sorted(i for i, p in enumerate(fn.params) if p['d'] in ps)
+        key = '%s%s#copy:arg%s' % (fn.q, sig(fn), '+'.join(str(i) for i in idx))
+        subj = {('var', d) for d in ps}
+        # the size field: the parameter type of the set_*_size call (16 bit for user / role sizes); length + 1 must fit
+        limit = U32 - 1
+        for st in stores:
+            for g in fb.by_usr.get(st.get('u'), [])[:1]:
+                if g.params and g.params[0]['tC'].replace('const ', '') in _NARROW16:
+                    limit = U16 - 1
+        if any(p['d'] in ps and p['tC'].replace('const ', '') in _NARROW16 for p in fn.params):
+            limit = min(limit, U16 - 1)
+        w = guarded_ip(fb, fn, ['entry'], [c['id']] + [st['id'] for st in stores], subj, UB(_const_le(limit)))
+        R.check(w is None, rule, key, fn.loc(c['id']),
+                '%s copies `length` bytes of a caller-supplied string and stores length + 1 in a %s size field without a throwing test '
+                'length > bound (bound <= %d; an assert is not a test: absent under NDEBUG): a name of exactly 65535 bytes wraps the stored size '
+                'to 0, longer ones are truncated / overflow the reserved space: %s'
+                % (fn.q, '16-bit' if limit == U16 - 1 else '32-bit', limit, _ipd(w)))
+    # narrowing of a caller-supplied length to 16 bit
+    for (fn, n, ps) in builder_narrowing_sites(fb):
+        idx = sorted(i for i, p in enumerate(fn.params) if p['d'] in ps)
+        key = '%s%s#narrow16:arg%s' % (fn.q, sig(fn), '+'.join(str(i) for i in idx))
+        subj = {('var', d) for d in ps}
+        w = guarded_ip(fb, fn, ['entry'], [n['id']], subj, UB(_const_le(U16 - 1)))
+        R.check(w is None, rule, key, fn.loc(n['id']),
+                '%s narrows the length of a caller-supplied string to the 16-bit string_size_type without a throwing test on the '
+                'un-narrowed length first (an assert is not a test): lengths >= 65535 wrap: %s' % (fn.q, _ipd(w)))
 
 
 # ------------------------------------------------------------------------------------------------ G4 blobs
@@ -2146,7 +2242,9 @@ def run(ctx):
     R.expect('G1-stringtable-access-is-at', 5)          # decode_info, build_tag_list, decode_relation, dense tags, dense user
     R.expect('G1-out_of_range-mapped', 2)
     R.expect('G2-stringtable-entry-length', 1)
-    R.expect('G3-builder-string-length-checked', 9)     # 3 add_tag overloads x key/value, add_role, add_user, add_text
+    # 3 add_tag overloads x key/value, add_role, add_user, add_text (append); 2 set_user(ptr,len) raw copies; narrowing casts in
+    # add_role, add_user and the 4 set_user(const char*) / set_user(const std::string&) overloads
+    R.expect('G3-builder-string-length-checked', 17)
     R.expect('G4-blob-sizes-bounded', 7)
     R.expect('G5-o5m-section-end-checked', 2)           # decode_way, decode_relation
     R.expect('G5-o5m-reference-table-bounds', 6)
